@@ -22,7 +22,7 @@ def Ty.GenOK (t : Ty) : Prop :=
   | .hash k v r => r.isSize ∧ Ty.GenOK k ∧ Ty.GenOK v
   | .tuple ts _ => ∀ t', ∀ (_ : t' ∈ ts), Ty.GenOK t'
   | .struct ms => ∀ m, ∀ (_ : m ∈ ms), Ty.GenOK m.2.2
-  | .optional t' | .notUndef t' | .sensitive t' | .typ t' | .iterable t' => Ty.GenOK t'
+  | .optional t' | .notUndef t' | .sensitive t' | .iterator t' | .typ t' | .iterable t' => Ty.GenOK t'
   | _ => True
 termination_by t.w
 decreasing_by
@@ -179,6 +179,11 @@ theorem gen_asg : ∀ (n : Nat) (t : Ty), t.w ≤ n → Ty.WF cfg t → t.NoAlia
       unfold Ty.GenOK at gt; unfold Ty.WF at wt; unfold Ty.NoAlias at nt
       simp only [Ty.w] at hw
       have key := mono_sensitive cfg sfh _ _ (ih x (by omega) wt nt gt).2
+      simp only [generalize, genericType]; exact ⟨key, key⟩
+    | iterator x =>
+      unfold Ty.GenOK at gt; unfold Ty.WF at wt; unfold Ty.NoAlias at nt
+      simp only [Ty.w] at hw
+      have key := mono_iterator cfg sfh _ _ (ih x (by omega) wt nt gt).2
       simp only [generalize, genericType]; exact ⟨key, key⟩
     | typ x =>
       unfold Ty.GenOK at gt; unfold Ty.WF at wt; unfold Ty.NoAlias at nt
